@@ -11,6 +11,7 @@ import GbVerif.Proofs.X86Sp
 import GbVerif.Proofs.X86Status
 import GbVerif.Proofs.X86Writes
 import GbVerif.Proofs.X86Safe
+import GbVerif.Proofs.X86SimMoves
 /-!
 C01 — translated blocks have the same architectural effect as the interpreter.
 (Structural facts first; the x86 model and per-template simulation lemmas are added by `Proofs/X86*.lean`.)
@@ -350,6 +351,44 @@ example : (match decodeCode (Gen.emitOp 0xc5) with
           { r := #[0,0,0x1234,0,0,0,0,ptrVal 512,0,0,0,0,0xc000,0x150,0,7], bus := (), stack := [1,2] } with
         | .error (.bus _) => true
         | _ => false)
+    | none => false) = true := by decide +kernel
+
+
+/-! ### the data side: translated code computes what the interpreter computes
+
+`X86.Simulates b0 b1 b2`: from ANY host state related by `X86.Sim` to a guest register file `g` (guest registers in the low
+16 bits of rax rcx rdx rbx r12 r13 r15; everything else arbitrary), over any bus, every complete run of the template of the
+encoding `b0` with operand bytes `b1 b2` ends in a host state related to the register file `Interp.runOp` produces from
+`g` (cycles included), with the bus, the host stack and the status byte untouched.  The statement for ALL register-only
+encodings is `RegisterSimulation`; it is PROVED for the register-transfer family below (70 encodings) and otherwise
+carried by the native differential and the exhaustive `c01.grid`. -/
+
+/-- the full statement for an encoding that touches no memory (not proved in general) -/
+def RegisterSimulation : Prop :=
+  ∀ b0 b1 b2, b0 < 256 → b1 < 256 → b2 < 256 → (Gen.emitOp b0).isEmpty = false → Simulates b0 b1 b2
+
+/-- **simulation_partial**: LD r,r' (49), LD r,n (7, every operand), LD rr,nn (4, every operand), INC rr / DEC rr (8),
+LD SP,HL and NOP — for all states -/
+theorem simulation_partial :
+    (∀ d s b1 b2, Simulates (opcodeLd8 d s) b1 b2) ∧
+    (∀ r b1 b2, b1 < 256 → Simulates (opcodeLdI r) b1 b2) ∧
+    (∀ p b1 b2, Simulates (opcodeLd16 p) b1 b2) ∧
+    (∀ p b1 b2, Simulates (opcodeInc16 p) b1 b2 ∧ Simulates (opcodeDec16 p) b1 b2) ∧
+    (∀ b1 b2, Simulates 0xf9 b1 b2) ∧ (∀ b1 b2, Simulates 0x00 b1 b2) :=
+  ⟨sim_ld8, sim_ldi, sim_ld16, fun p b1 b2 => ⟨sim_incdec16 p false b1 b2, sim_incdec16 p true b1 b2⟩, sim_ld_sp_hl, sim_nop⟩
+
+/-- the opcodes covered are the SM83's: LD B,C = 0x41, LD A,n = 0x3E, LD SP,nn = 0x31, DEC HL = 0x2B -/
+example : opcodeLd8 .B .C = 0x41 ∧ opcodeLdI .A = 0x3e ∧ opcodeLd16 .SP = 0x31 ∧ opcodeDec16 .HL = 0x2b := by decide
+
+/-- non-vacuity: a host state that is related to a guest register file, from which LD B,C does run to completion -/
+def exGuest : Interp.Regs := { af := 0x01b0, bc := 0x0013, de := 0x00d8, hl := 0x014d, sp := 0xfffe, ip := 0x0150, cycles := 7 }
+def exHost : St Unit :=
+  { r := #[0xabcd01b0, 0x7777014d, 0x00d8, 0xffff0013, 0, 0, 0, 0, 0, 0, 0, 0, 0x1234fffe, 0x99990150, 0, 0x50007], bus := () }
+example : Sim exGuest exHost := by constructor <;> decide
+example : (match decodeCode (Gen.emitOp 0x41) with
+    | some code => (match run JitCycles.nullBus code (bytesOf (Gen.emitOp 0x41)) 10 exHost with
+        | .ok s' => (get s' 3).toNat % 65536 == 0x1313 && (get s' 13).toNat % 65536 == 0x151
+        | .error _ => false)
     | none => false) = true := by decide +kernel
 
 
